@@ -75,10 +75,10 @@ class Gen:
         if k == "range":
             return "range(%d)" % r.randint(0, 4), x, "int", ""
         if k == "set":
-            items = r.sample([5, 3, 9, 1, 7, 2], r.randint(0, 4))
+            items = r.sample([5, 3, 9, 1, 7, 2, 10, -2, 100, -10], r.randint(0, 4))
             return "<<" + ", ".join(map(str, items)) + ">>", x, "int", ""
         if k.startswith("map"):
-            keys = r.sample([4, 2, 9, 1, 6], r.randint(1, 4))
+            keys = r.sample([4, 2, 9, 1, 6, 10, 100, -1, -10, 25], r.randint(1, 4))   # orders that differ from the order of the texts
             m = "<<< " + ", ".join("%d => %d" % (kk, r.choice([10, 30, 20, 5, 40])) for kk in keys) + " >>>"
             if k == "mapkeys":
                 return m, x, "int", "keys "
@@ -116,7 +116,7 @@ class Gen:
         r, p = self.r, self.p
         choices = [(2.0, "log"), (1.0, "def"), (0.8, "assign")]
         if depth > 0:
-            choices += [(1.2, "if"), (p["loops"], "for"), (p["loops"] * 0.5, "while"), (p["errors"], "try"), (p["funcs"], "func"),
+            choices += [(1.2, "if"), (p["loops"], "for"), (p["loops"] * 0.5, "while"), (p["errors"], "try"), (p["funcs"], "func"), (p["funcs"] * 0.5, "outerupd"), (p["errors"] * 0.4 + p["funcs"] * 0.15, "retfunc"),
                         (p["comps"], "comp"), (p["alias"], "alias"), (p["calls"], "call"), (p["calls"] * 0.6 + p["alias"] * 0.2, "method")]
         if ctx["loop"]:
             choices += [(p["exits"], "break"), (p["exits"], "continue"), (p["exits"] * 0.6, "tryexit")]
@@ -147,6 +147,13 @@ class Gen:
             if not ints:
                 return ["append(log, 1)"]
             v = r.choice(ints)
+            if r.random() < 0.3:
+                # destructuring assignment: updates the nearest enclosing bindings like a plain assignment
+                w = r.choice(ints)
+                src = r.choice(["[%s, %s]", "[%s, %s, 5]", "[%s]"] if w != v else ["[%s, %s]"])
+                vals = tuple(self.intexpr(ctx, 1) for _ in range(src.count("%s")))
+                self.features.add("assignd")
+                return ["[%s, %s] = %s" % (v, w, src % vals), "append(log, %s + %s)" % (v, w)] if len(vals) > 1 or w != v else ["[%s] = %s" % (v, src % vals)]
             return [r.choice(["%s = %s" % (v, self.intexpr(ctx)), "%s += %s" % (v, self.intexpr(ctx, 1)), "%s *= 2" % v])]
         if k == "if":
             s = "if %s then %s" % (self.cond(ctx), self.body(self.block(ctx, depth - 1)))
@@ -214,6 +221,28 @@ class Gen:
                     fin.append("error 'in-finally'")
                 s += " finally " + "; ".join(fin)
             return [s + " end"]
+        if k == "retfunc":
+            # a function whose body block consists of one return statement and carries the catch / finally parts itself
+            f, a = self.fresh("f"), self.fresh("a")
+            e = r.choice(["[10, 20, 30][%s]", "if %s > 1 then error %s else %s * 2", "%s + 1", "[10, 20][%s] + 1"]).replace("%s", a)
+            h = r.choice([" catch all -1", " catch 5 do append(log, 55); -3 end", " catch all do append(log, 56); -2 end", ""])
+            fin = r.choice(["", " finally append(log, 77)"]) if h else " finally append(log, 77)"
+            head = r.choice(["def %s(%s) " % (f, a), "def %s = fn(%s) " % (f, a)])
+            ret = r.choice(["return %s" % e, "return %s" % e, "return %s;" % e, e])
+            return [head + "do " + ret + h + fin + " end", "append(log, [%s])" % ", ".join("do %s(%d) catch all -9 end" % (f, v) for v in r.sample([0, 1, 2, 5, 7], 3))]
+        if k == "outerupd":
+            # a function that updates variables of its defining scope (plain, compound or destructuring assignment), called directly or
+            # through another function that has a variable of the same name; the defining scope logs its variables afterwards
+            v, w, f, g, a = self.fresh("v"), self.fresh("v"), self.fresh("f"), self.fresh("f"), self.fresh("a")
+            upd = r.choice(["[%s, %s] = [%s + %s, %s]" % (v, w, w, a, v), "[%s, %s] = [%s * 2, %s + 1, 9]" % (w, v, v, a), "[%s] = [%s + %s]" % (v, v, a),
+                            "%s = %s + %s; %s += 1" % (v, w, a, w), "[%s, %s] = <<%s + 10, %s>>" % (v, w, a, a)])
+            out = ["def %s = %s" % (v, self.intexpr(ctx, 1)), "def %s = %s" % (w, self.intexpr(ctx, 1)),
+                   "def %s(%s) do %s; append(log, [%s, %s]); %s end" % (f, a, upd, v, w, v)]
+            if r.random() < 0.5:
+                out.append("def %s(%s) do def %s = 100; %s(%s + 1) + %s end" % (g, a, r.choice([v, w]), f, a, r.choice([v, w])))
+                out.append("append(log, %s(%d))" % (g, r.randint(1, 5)))
+            out += ["append(log, %s(%d))" % (f, r.randint(1, 5)), "append(log, [%s, %s])" % (v, w)]
+            return out
         if k == "func":
             return self.funcdef(ctx, depth)
         if k == "call":
